@@ -16,7 +16,7 @@ for sid in sorted(os.listdir(os.path.join(ROOT, "seeded"))):
     first_missed = bool(hist) and ("MISSED" in " ".join(hist) if isinstance(hist, list) else True)
     summ = (m.get("summary") or "").replace("|", "/").replace("\n", " ")
     summ = summ[:150] + ("…" if len(summ) > 150 else "")
-    c = ", ".join(p + ("*" if p in nf else "") for p in caught) or "— NOT CAUGHT"
+    c = ", ".join(p + ("*" if p in nf else "") for p in caught) or ("— not flagged (" + m["judged"] + ")" if m.get("judged") else "— NOT CAUGHT")
     rows.append(f"| `{sid}` | {summ} | {c} | {'yes' if first_missed else ''} |")
 print("| seeded change | what was changed | caught by (quick checks; * = reported without a failing input) | needed strengthening |")
 print("|---|---|---|---|")
